@@ -56,105 +56,13 @@ theorem Steps.reach {c : Cfg} {p : Label → Bool} {s s' : State} (a : Steps c p
 def AtFetch (s : State) (last : Nat) : Prop :=
   ∃ h, s.handler = some h ∧ h.pc = .atFetch ∧ h.stopReq = false ∧ h.last = last
 
-/-- from `sending`: the persister takes the value, the handler goes on to the next fetch -/
-theorem steps_from_sending {c : Cfg} {s : State} {h : Handler} {m : Bool} (w : WF s)
-    (hh : s.handler = some h) (hpc : h.pc = .sending m) (hns : h.stopReq = false) :
-    ∃ s', Steps c Label.progress s s' ∧ AtFetch s' h.last ∧ s'.nLogs = s.nLogs ∧ s'.recv = s.recv := by
-  have hc := w.sendingBusy h m hh hpc
-  cases hcur : s.cur with
-  | none => exact absurd hcur hc
-  | some v =>
-    cases m with
-    | true =>
-      have : ∃ s1, step c s (.persist s.orphans.length true false) = some s1 ∧
-          AtFetch s1 h.last ∧ s1.nLogs = s.nLogs ∧ s1.recv = s.recv := by
-        simp [step, hcur, hh, hpc, afterSend, hns, AtFetch, write]
-        split <;> simp
-      obtain ⟨s1, e, p⟩ := this
-      exact ⟨s1, Steps.single _ rfl e, p⟩
-    | false =>
-      have : ∃ s1, step c s (.persist s.orphans.length true false) = some s1 ∧
-          (∃ s2, step c s1 .tick = some s2 ∧
-          AtFetch s2 h.last ∧ s2.nLogs = s.nLogs ∧ s2.recv = s.recv) := by
-        simp [step, hcur, hh, hpc, afterSend, atSelect, hns, AtFetch, write]
-        split <;> simp
-      obtain ⟨s1, e1, s2, e2, p⟩ := this
-      exact ⟨s2, (Steps.single _ rfl e1).trans (Steps.single _ rfl e2), p⟩
+/-- what every progress lemma keeps: the logs, and acknowledgements only grow -/
+def Keeps (s s' : State) : Prop := s'.nLogs = s.nLogs ∧ ∀ k, k ∈ s.acked → k ∈ s'.acked
 
+theorem Keeps.refl (s : State) : Keeps s s := ⟨rfl, fun _ h => h⟩
 
-/-- from `exporting`: the exporter accepts, the cursor advances, on to the next fetch -/
-theorem steps_from_exporting {c : Cfg} {s : State} {h : Handler} {lo hi : Nat} {m : Bool} (w : WF s)
-    (hh : s.handler = some h) (hpc : h.pc = .exporting lo hi m) (hns : h.stopReq = false) :
-    ∃ s', Steps c Label.progress s s' ∧ AtFetch s' hi ∧ s'.nLogs = s.nLogs ∧
-      s'.recv = (lo, hi) :: s.recv := by
-  cases hcur : s.cur with
-  | none =>
-    cases m with
-    | true =>
-      have : ∃ s1, step c s (.accept .ok) = some s1 ∧
-          AtFetch s1 hi ∧ s1.nLogs = s.nLogs ∧ s1.recv = (lo, hi) :: s.recv := by
-        simp [step, hcur, hh, hpc, afterSend, hns, AtFetch, deliver, ack]
-      obtain ⟨s1, e, p⟩ := this
-      exact ⟨s1, Steps.single _ rfl e, p⟩
-    | false =>
-      have : ∃ s1, step c s (.accept .ok) = some s1 ∧ (∃ s2, step c s1 .tick = some s2 ∧
-          AtFetch s2 hi ∧ s2.nLogs = s.nLogs ∧ s2.recv = (lo, hi) :: s.recv) := by
-        simp [step, hcur, hh, hpc, afterSend, atSelect, hns, AtFetch, deliver, ack]
-      obtain ⟨s1, e1, s2, e2, p⟩ := this
-      exact ⟨s2, (Steps.single _ rfl e1).trans (Steps.single _ rfl e2), p⟩
-  | some v =>
-    have : ∃ s1, step c s (.accept .ok) = some s1 ∧ (∃ h1, s1.handler = some h1 ∧ h1.pc = .sending m ∧
-        h1.stopReq = false ∧ h1.last = hi) ∧ s1.nLogs = s.nLogs ∧ s1.recv = (lo, hi) :: s.recv := by
-      simp [step, hcur, hh, hpc, hns, deliver, ack]
-    obtain ⟨s1, e1, ⟨h1, hh1, hpc1, hns1, hl1⟩, hn1, hr1⟩ := this
-    obtain ⟨s2, st, p1, p2, p3⟩ := steps_from_sending (c := c) (wf_step w e1) hh1 hpc1 hns1
-    exact ⟨s2, (Steps.single _ rfl e1).trans st, by rw [← hl1]; exact p1, by rw [p2, hn1], by rw [p3, hr1]⟩
-
-/-- Any running, not-stopping handler gets (back) to `ListLogs`; on the way it
-    either keeps cursor and `recv`, or delivers the batch it was holding. -/
-theorem steps_to_fetch {c : Cfg} {s : State} {h : Handler} (w : WF s)
-    (hh : s.handler = some h) (hns : h.stopReq = false) :
-    ∃ s', Steps c Label.progress s s' ∧ s'.nLogs = s.nLogs ∧
-      ((AtFetch s' h.last ∧ s'.recv = s.recv) ∨
-       (∃ hi, h.last < hi ∧ AtFetch s' hi ∧ s'.recv = (h.last, hi) :: s.recv)) := by
-  have hok := w.pcOk h hh
-  cases hpc : h.pc with
-  | idle =>
-    have : ∃ s1, step c s .tick = some s1 ∧ s1.nLogs = s.nLogs ∧ AtFetch s1 h.last ∧ s1.recv = s.recv := by
-      simp [step, hh, hpc, AtFetch, hns]
-    obtain ⟨s1, e, p1, p2, p3⟩ := this
-    exact ⟨s1, Steps.single _ rfl e, p1, Or.inl ⟨p2, p3⟩⟩
-  | atFetch => exact ⟨s, Steps.refl s, rfl, Or.inl ⟨⟨h, hh, hpc, hns, rfl⟩, rfl⟩⟩
-  | fetchErr =>
-    cases hz : h.zero with
-    | true =>
-      have : ∃ s1, step c s .tick = some s1 ∧ s1.nLogs = s.nLogs ∧ AtFetch s1 h.last ∧ s1.recv = s.recv := by
-        simp [step, hh, hpc, AtFetch, hns, hz]
-      obtain ⟨s1, e, p1, p2, p3⟩ := this
-      exact ⟨s1, Steps.single _ rfl e, p1, Or.inl ⟨p2, p3⟩⟩
-    | false =>
-      have : ∃ s1, step c s .tick = some s1 ∧ (∃ s2, step c s1 .tick = some s2 ∧
-          s2.nLogs = s.nLogs ∧ AtFetch s2 h.last ∧ s2.recv = s.recv) := by
-        simp [step, hh, hpc, AtFetch, hns, hz]
-      obtain ⟨s1, e1, s2, e2, p1, p2, p3⟩ := this
-      exact ⟨s2, (Steps.single _ rfl e1).trans (Steps.single _ rfl e2), p1, Or.inl ⟨p2, p3⟩⟩
-  | exporting lo hi m =>
-    simp only [PcOk, hpc] at hok
-    obtain ⟨s', st, p1, p2, p3⟩ := steps_from_exporting (c := c) w hh hpc hns
-    exact ⟨s', st, p2, Or.inr ⟨hi, by omega, p1, by rw [p3, hok.1]⟩⟩
-  | retry lo hi m =>
-    simp only [PcOk, hpc] at hok
-    have : ∃ s1, step c s .tick = some s1 ∧ (∃ h1, s1.handler = some h1 ∧ h1.pc = .exporting lo hi m ∧
-        h1.stopReq = false) ∧ s1.nLogs = s.nLogs ∧ s1.recv = s.recv := by
-      simp [step, hh, hpc, hns]
-    obtain ⟨s1, e1, ⟨h1, hh1, hpc1, hns1⟩, hn1, hr1⟩ := this
-    obtain ⟨s', st, p1, p2, p3⟩ := steps_from_exporting (c := c) (wf_step w e1) hh1 hpc1 hns1
-    exact ⟨s', (Steps.single _ rfl e1).trans st, by rw [p2, hn1],
-      Or.inr ⟨hi, by omega, p1, by rw [p3, hr1, hok.1]⟩⟩
-  | sending m =>
-    obtain ⟨s', st, p1, p2, p3⟩ := steps_from_sending (c := c) w hh hpc hns
-    exact ⟨s', st, p2, Or.inl ⟨p1, p3⟩⟩
-
+theorem Keeps.trans {s1 s2 s3 : State} (a : Keeps s1 s2) (b : Keeps s2 s3) : Keeps s1 s3 :=
+  ⟨by rw [b.1, a.1], fun k h => b.2 k (a.2 k h)⟩
 
 theorem wf_run {c : Cfg} {s s' : State} {ls : List Label} (w : WF s) (h : run c s ls = some s') : WF s' := by
   induction ls generalizing s with
@@ -169,51 +77,245 @@ theorem Steps.wf {c : Cfg} {p : Label → Bool} {s s' : State} (a : Steps c p s 
   obtain ⟨ls, _, hr⟩ := a
   exact wf_run w hr
 
-/-- one full round: fetch the next page, export it, advance -/
+/-- from `sending`: the persister takes the value, the handler goes on to the next fetch -/
+theorem steps_from_sending {c : Cfg} {s : State} {h : Handler} {m : Bool} (w : WF s)
+    (hh : s.handler = some h) (hpc : h.pc = .sending m) (hns : h.stopReq = false) :
+    ∃ s', Steps c Label.progress s s' ∧ AtFetch s' h.last ∧ Keeps s s' := by
+  have hc := w.sendingBusy h m hh hpc
+  cases hcur : s.cur with
+  | none => exact absurd hcur hc
+  | some v =>
+    cases m with
+    | true =>
+      have : ∃ s1, step c s (.persist s.orphans.length true false) = some s1 ∧
+          AtFetch s1 h.last ∧ Keeps s s1 := by
+        simp [step, hcur, hh, hpc, afterSend, hns, AtFetch, write, Keeps]
+        split <;> simp
+      obtain ⟨s1, e, p⟩ := this
+      exact ⟨s1, Steps.single _ rfl e, p⟩
+    | false =>
+      have : ∃ s1, step c s (.persist s.orphans.length true false) = some s1 ∧
+          (∃ s2, step c s1 .tick = some s2 ∧ AtFetch s2 h.last ∧ Keeps s s2) := by
+        simp [step, hcur, hh, hpc, afterSend, atSelect, hns, AtFetch, write, Keeps]
+        split <;> simp
+      obtain ⟨s1, e1, s2, e2, p⟩ := this
+      exact ⟨s2, (Steps.single _ rfl e1).trans (Steps.single _ rfl e2), p⟩
+
+/-- after `Accept` returned nil: the cursor is at the end of the page; on to the next fetch -/
+theorem steps_after_done {c : Cfg} {s1 : State} {h : Handler} {hi : Nat} {more : Bool} (w : WF s1)
+    (hh : s1.handler = some h) (hne : ∀ m, h.pc ≠ .sending m) (hns : h.stopReq = false) :
+    ∃ s', Steps c Label.progress (exportDone c s1 h hi more) s' ∧ AtFetch s' hi ∧ Keeps s1 s' := by
+  have wd := wf_exportDone (c := c) (hi := hi) (more := more) w hh hne
+  cases hcur : s1.cur with
+  | none =>
+    cases more with
+    | true =>
+      refine ⟨_, Steps.refl _, ?_, ?_⟩ <;>
+        simp [exportDone, hcur, afterSend, hns, AtFetch, Keeps, ack]
+    | false =>
+      have : ∃ s2, step c (exportDone c s1 h hi false) .tick = some s2 ∧ AtFetch s2 hi ∧ Keeps s1 s2 := by
+        simp [step, exportDone, hcur, afterSend, atSelect, hns, AtFetch, Keeps, ack]
+      obtain ⟨s2, e, p⟩ := this
+      exact ⟨s2, Steps.single _ rfl e, p⟩
+  | some v =>
+    have e : exportDone c s1 h hi more =
+        { ack s1 hi with handler := some { h with last := hi, pc := .sending more } } := by
+      simp [exportDone, hcur]
+    rw [e] at wd ⊢
+    obtain ⟨s', st, p1, p2⟩ := steps_from_sending (c := c) (m := more) wd rfl rfl hns
+    exact ⟨s', st, p1, ⟨by rw [p2.1]; rfl, fun k hk => p2.2 k (by simpa [ack] using hk)⟩⟩
+
+/-- The remaining chunks of a page all go through the exporter (failure-free):
+    with an earlier failure the handler ends in `retry`, otherwise the cursor
+    advances and every remaining log of the page has been acknowledged. -/
+theorem steps_finish_export {c : Cfg} (n : Nat) :
+    ∀ (s : State) (h : Handler) (lo hi : Nat) (more : Bool) (pos : Nat) (bad gate : Bool), WF s →
+      s.handler = some h → h.pc = .exporting lo hi more pos bad gate → h.stopReq = false → pos < hi →
+      hi - pos ≤ n →
+      ∃ s', Steps c Label.progress s s' ∧ Keeps s s' ∧
+        (bad = true → ∃ h', s'.handler = some h' ∧ h'.pc = .retry lo hi more ∧ h'.stopReq = false ∧
+          h'.last = h.last) ∧
+        (bad = false → AtFetch s' hi ∧ ∀ k, pos < k → k ≤ hi → k ∈ s'.acked) := by
+  induction n with
+  | zero => intro s h lo hi more pos bad gate _ _ _ _ h1 h2; omega
+  | succ n ih =>
+    intro s h lo hi more pos bad gate w hh hpc hns hph hn
+    -- the chunk at the exporter
+    have key : ∀ (s : State) (h : Handler), WF s → s.handler = some h →
+        h.pc = .exporting lo hi more pos bad true → h.stopReq = false →
+        ∃ s', Steps c Label.progress s s' ∧ Keeps s s' ∧
+          (bad = true → ∃ h', s'.handler = some h' ∧ h'.pc = .retry lo hi more ∧ h'.stopReq = false ∧
+            h'.last = h.last) ∧
+          (bad = false → AtFetch s' hi ∧ ∀ k, pos < k → k ≤ hi → k ∈ s'.acked) := by
+      intro s h w hh hpc hns
+      have hb := chunkEnd_bounds (c := c) hph
+      have hmono := exporterCall_acked_mono s pos (chunkEnd c pos hi) .ok
+      have hnew : ∀ k, pos < k → k ≤ chunkEnd c pos hi → k ∈ (exporterCall s pos (chunkEnd c pos hi) .ok).acked := by
+        intro k h1 h2
+        simp only [exporterCall, ackItems]
+        exact List.mem_append_left _ (mem_idsOf.mpr ⟨h1, h2⟩)
+      have f := exporterCall_fields s pos (chunkEnd c pos hi) .ok
+      by_cases hlt : chunkEnd c pos hi < hi
+      · obtain ⟨S1, hS1⟩ : ∃ S1 : State, S1 = { exporterCall s pos (chunkEnd c pos hi) .ok with
+            handler := some { h with
+              pc := .exporting lo hi more (chunkEnd c pos hi) bad (chunkFull c (chunkEnd c pos hi) hi) } } :=
+          ⟨_, rfl⟩
+        have e : step c s (.accept .ok) = some S1 := by
+          subst hS1; simp [step, hh, hpc, hlt, AcceptRes.isOk]
+        have k1 : Keeps s S1 := by
+          subst hS1; exact ⟨f.1, hmono⟩
+        obtain ⟨s', st, k2, hbad, hgood⟩ := ih S1
+          { h with pc := .exporting lo hi more (chunkEnd c pos hi) bad (chunkFull c (chunkEnd c pos hi) hi) }
+          lo hi more (chunkEnd c pos hi) bad _ (wf_step w e) (by subst hS1; rfl) rfl hns hlt (by omega)
+        refine ⟨s', (Steps.single _ rfl e).trans st, k1.trans k2, hbad, ?_⟩
+        intro hb0
+        obtain ⟨ha, hk⟩ := hgood hb0
+        refine ⟨ha, fun k h1 h2 => ?_⟩
+        by_cases hkb : k ≤ chunkEnd c pos hi
+        · exact k2.2 k (by subst hS1; exact hnew k h1 hkb)
+        · exact hk k (by omega) h2
+      · have hend : chunkEnd c pos hi = hi := by omega
+        cases bad with
+        | true =>
+          have : ∃ s1, step c s (.accept .ok) = some s1 ∧ Keeps s s1 ∧
+              ∃ h', s1.handler = some h' ∧ h'.pc = .retry lo hi more ∧ h'.stopReq = false ∧ h'.last = h.last := by
+            simp [step, hh, hpc, hlt, atSelect, hns, Keeps, f.1]
+            exact hmono
+          obtain ⟨s1, e, k1, hr⟩ := this
+          exact ⟨s1, Steps.single _ rfl e, k1, fun _ => hr, fun hb0 => by simp at hb0⟩
+        | false =>
+          have e : step c s (.accept .ok) =
+              some (exportDone c (exporterCall s pos (chunkEnd c pos hi) .ok) h hi more) := by
+            simp [step, hh, hpc, hlt, AcceptRes.isOk]
+          obtain ⟨s', st, ha, k2⟩ := steps_after_done (c := c) (hi := hi) (more := more)
+            (wf_exporterCall w pos (chunkEnd c pos hi) .ok) (by rw [f.2.1]; exact hh) (by simp [hpc]) hns
+          refine ⟨s', (Steps.single _ rfl e).trans st, Keeps.trans ⟨f.1, hmono⟩ k2, fun hb0 => by simp at hb0,
+            fun _ => ⟨ha, fun k h1 h2 => k2.2 k (hnew k h1 (by omega))⟩⟩
+    cases gate with
+    | true => exact key s h w hh hpc hns
+    | false =>
+      have : ∃ s0, step c s .tick = some s0 ∧ Keeps s s0 ∧
+          ∃ h0, s0.handler = some h0 ∧ h0.pc = .exporting lo hi more pos bad true ∧ h0.stopReq = false ∧
+            h0.last = h.last := by
+        simp [step, hh, hpc, Keeps, hns]
+      obtain ⟨s0, e, k0, h0, hh0, hpc0, hns0, hl0⟩ := this
+      obtain ⟨s', st, k1, hbad, hgood⟩ := key s0 h0 (wf_step w e) hh0 hpc0 hns0
+      exact ⟨s', (Steps.single _ rfl e).trans st, k0.trans k1, fun hb0 => by rw [← hl0]; exact hbad hb0, hgood⟩
+
+/-- after a failed page: the retry timer fires and the whole page goes through -/
+theorem steps_from_retry {c : Cfg} {s : State} {h : Handler} {lo hi : Nat} {more : Bool} (w : WF s)
+    (hh : s.handler = some h) (hpc : h.pc = .retry lo hi more) (hns : h.stopReq = false) :
+    ∃ s', Steps c Label.progress s s' ∧ Keeps s s' ∧ AtFetch s' hi ∧ ∀ k, lo < k → k ≤ hi → k ∈ s'.acked := by
+  have hok := w.pcOk h hh
+  simp only [PcOk, hpc] at hok
+  have : ∃ s0, step c s .tick = some s0 ∧ Keeps s s0 ∧
+      ∃ h0, s0.handler = some h0 ∧ h0.pc = .exporting lo hi more lo false (chunkFull c lo hi) ∧
+        h0.stopReq = false := by
+    simp [step, hh, hpc, Keeps, hns, enterExport]
+  obtain ⟨s0, e, k0, h0, hh0, hpc0, hns0⟩ := this
+  obtain ⟨s', st, k1, _, hgood⟩ := steps_finish_export (c := c) (hi - lo) s0 h0 lo hi more lo false _ (wf_step w e)
+    hh0 hpc0 hns0 hok.2.1 (Nat.le_refl _)
+  obtain ⟨ha, hk⟩ := hgood rfl
+  exact ⟨s', (Steps.single _ rfl e).trans st, k0.trans k1, ha, hk⟩
+
+/-- Any running, not-stopping handler gets (back) to `ListLogs`; whatever it held
+    has then been acknowledged item by item. -/
+theorem steps_to_fetch {c : Cfg} {s : State} {h : Handler} (w : WF s) (cl : Clean s)
+    (hh : s.handler = some h) (hns : h.stopReq = false) :
+    ∃ s' last', Steps c Label.progress s s' ∧ Keeps s s' ∧ AtFetch s' last' ∧ h.last ≤ last' ∧
+      ∀ k, h.last < k → k ≤ last' → k ∈ s'.acked := by
+  have hok := w.pcOk h hh
+  cases hpc : h.pc with
+  | idle =>
+    have : ∃ s1, step c s .tick = some s1 ∧ Keeps s s1 ∧ AtFetch s1 h.last := by
+      simp [step, hh, hpc, AtFetch, hns, Keeps]
+    obtain ⟨s1, e, p1, p2⟩ := this
+    exact ⟨s1, h.last, Steps.single _ rfl e, p1, p2, Nat.le_refl _, fun k h1 h2 => by omega⟩
+  | atFetch =>
+    exact ⟨s, h.last, Steps.refl s, Keeps.refl s, ⟨h, hh, hpc, hns, rfl⟩, Nat.le_refl _, fun k h1 h2 => by omega⟩
+  | fetchErr =>
+    cases hz : h.zero with
+    | true =>
+      have : ∃ s1, step c s .tick = some s1 ∧ Keeps s s1 ∧ AtFetch s1 h.last := by
+        simp [step, hh, hpc, AtFetch, hns, hz, Keeps]
+      obtain ⟨s1, e, p1, p2⟩ := this
+      exact ⟨s1, h.last, Steps.single _ rfl e, p1, p2, Nat.le_refl _, fun k h1 h2 => by omega⟩
+    | false =>
+      have : ∃ s1, step c s .tick = some s1 ∧ (∃ s2, step c s1 .tick = some s2 ∧
+          Keeps s s2 ∧ AtFetch s2 h.last) := by
+        simp [step, hh, hpc, AtFetch, hns, hz, Keeps]
+      obtain ⟨s1, e1, s2, e2, p1, p2⟩ := this
+      exact ⟨s2, h.last, (Steps.single _ rfl e1).trans (Steps.single _ rfl e2), p1, p2, Nat.le_refl _,
+        fun k h1 h2 => by omega⟩
+  | exporting lo hi m pos bad gate =>
+    simp only [PcOk, hpc] at hok
+    obtain ⟨hlo, hlt, _, hlp, hph⟩ := hok
+    obtain ⟨s1, st, k1, hbad, hgood⟩ := steps_finish_export (c := c) (hi - pos) s h lo hi m pos bad gate w hh hpc
+      hns hph (Nat.le_refl _)
+    cases bad with
+    | false =>
+      obtain ⟨ha, hk⟩ := hgood rfl
+      refine ⟨s1, hi, st, k1, ha, by omega, fun k h1 h2 => ?_⟩
+      by_cases hkp : k ≤ pos
+      · exact k1.2 k (cl h lo hi m pos gate hh hpc k (by omega) hkp)
+      · exact hk k (by omega) h2
+    | true =>
+      obtain ⟨h', hh', hpc', hns', hl'⟩ := hbad rfl
+      obtain ⟨s2, st2, k2, ha, hk⟩ := steps_from_retry (c := c) (st.wf w) hh' hpc' hns'
+      exact ⟨s2, hi, st.trans st2, k1.trans k2, ha, by omega, fun k h1 h2 => hk k (by omega) h2⟩
+  | retry lo hi m =>
+    simp only [PcOk, hpc] at hok
+    obtain ⟨s1, st, k1, ha, hk⟩ := steps_from_retry (c := c) w hh hpc hns
+    exact ⟨s1, hi, st, k1, ha, by omega, fun k h1 h2 => hk k (by omega) h2⟩
+  | sending m =>
+    obtain ⟨s', st, p1, p2⟩ := steps_from_sending (c := c) w hh hpc hns
+    exact ⟨s', h.last, st, p2, p1, Nat.le_refl _, fun k h1 h2 => by omega⟩
+
+/-- one full round: fetch the next page, export it chunk by chunk, advance -/
 theorem steps_round {c : Cfg} {s : State} {last : Nat} (hps : 1 ≤ c.ps) (w : WF s) (ha : AtFetch s last)
     (hl : last < s.nLogs) :
-    ∃ s', Steps c Label.progress s s' ∧ s'.nLogs = s.nLogs ∧ AtFetch s' (min (last + c.ps) s.nLogs) ∧
-      s'.recv = (last, min (last + c.ps) s.nLogs) :: s.recv := by
+    ∃ s', Steps c Label.progress s s' ∧ Keeps s s' ∧ AtFetch s' (min (last + c.ps) s.nLogs) ∧
+      ∀ k, last < k → k ≤ min (last + c.ps) s.nLogs → k ∈ s'.acked := by
   obtain ⟨h, hh, hpc, hns, hlast⟩ := ha
   subst hlast
   have hlt : h.last < min (h.last + c.ps) s.nLogs := by omega
-  have : ∃ s1, step c s (.fetch true) = some s1 ∧ (∃ h1, s1.handler = some h1 ∧
-      h1.pc = .exporting h.last (min (h.last + c.ps) s.nLogs) (decide (h.last + c.ps < s.nLogs)) ∧
-      h1.stopReq = false) ∧ s1.nLogs = s.nLogs ∧ s1.recv = s.recv := by
-    simp [step, hh, hpc, hns, hlt, atSelect]
-  obtain ⟨s1, e1, ⟨h1, hh1, hpc1, hns1⟩, hn1, hr1⟩ := this
-  obtain ⟨s', st, p1, p2, p3⟩ := steps_from_exporting (c := c) (wf_step w e1) hh1 hpc1 hns1
-  exact ⟨s', (Steps.single _ rfl e1).trans st, by rw [p2, hn1], p1, by rw [p3, hr1]⟩
+  have : ∃ s1, step c s (.fetch true) = some s1 ∧ Keeps s s1 ∧ (∃ h1, s1.handler = some h1 ∧
+      h1.pc = .exporting h.last (min (h.last + c.ps) s.nLogs) (decide (h.last + c.ps < s.nLogs)) h.last false
+        (chunkFull c h.last (min (h.last + c.ps) s.nLogs)) ∧
+      h1.stopReq = false) := by
+    simp [step, hh, hpc, hns, hlt, atSelect, Keeps, enterExport]
+  obtain ⟨s1, e1, k1, h1, hh1, hpc1, hns1⟩ := this
+  obtain ⟨s', st, k2, _, hgood⟩ := steps_finish_export (c := c) (min (h.last + c.ps) s.nLogs - h.last) s1 h1 _ _ _ _
+    false _ (wf_step w e1) hh1 hpc1 hns1 hlt (Nat.le_refl _)
+  obtain ⟨ha', hk⟩ := hgood rfl
+  exact ⟨s', (Steps.single _ rfl e1).trans st, k1.trans k2, ha', hk⟩
 
 theorem deliver_from_fetch {c : Cfg} (hps : 1 ≤ c.ps) (k : Nat) :
     ∀ (n : Nat) (s : State) (last : Nat), WF s → AtFetch s last → last < k → k ≤ s.nLogs → k - last ≤ n →
-      ∃ s', Steps c Label.progress s s' ∧ Delivered s' k := by
+      ∃ s', Steps c Label.progress s s' ∧ Acked s' k := by
   intro n
   induction n with
   | zero => intro s last _ _ h1 _ h3; omega
   | succ n ih =>
     intro s last w ha h1 h2 h3
-    obtain ⟨s1, st, hn, ha1, hr⟩ := steps_round hps w ha (by omega)
+    obtain ⟨s1, st, kp, ha1, hr⟩ := steps_round hps w ha (by omega)
     by_cases hk : k ≤ min (last + c.ps) s.nLogs
-    · exact ⟨s1, st, (last, min (last + c.ps) s.nLogs), by rw [hr]; exact List.mem_cons_self, h1, hk⟩
-    · obtain ⟨s2, st2, d⟩ := ih s1 _ (st.wf w) ha1 (by omega) (by rw [hn]; exact h2) (by omega)
+    · exact ⟨s1, st, hr k h1 hk⟩
+    · obtain ⟨s2, st2, d⟩ := ih s1 _ (st.wf w) ha1 (by omega) (by rw [kp.1]; exact h2) (by omega)
       exact ⟨s2, st.trans st2, d⟩
 
 /-- **Progress from the cursor** (every configuration, including the code as it is):
-    a running handler that is not being stopped delivers every log beyond its
-    cursor after finitely many failure-free steps. -/
+    a running handler that is not being stopped gets every log beyond its cursor
+    acknowledged by the exporter, item by item, after finitely many failure-free steps. -/
 theorem deliver_beyond_cursor {c : Cfg} (hps : 1 ≤ c.ps) {s : State} {h : Handler} {k : Nat} (w : WF s)
-    (hh : s.handler = some h) (hns : h.stopReq = false) (h1 : h.last < k) (h2 : k ≤ s.nLogs) :
-    ∃ s', Steps c Label.progress s s' ∧ Delivered s' k := by
-  obtain ⟨s1, st, hn, hcase⟩ := steps_to_fetch (c := c) w hh hns
-  rcases hcase with ⟨ha, _⟩ | ⟨hi, hlt, ha, hr⟩
-  · obtain ⟨s2, st2, d⟩ := deliver_from_fetch hps k (k - h.last) s1 h.last (st.wf w) ha h1 (by rw [hn]; exact h2) (Nat.le_refl _)
+    (cl : Clean s) (hh : s.handler = some h) (hns : h.stopReq = false) (h1 : h.last < k) (h2 : k ≤ s.nLogs) :
+    ∃ s', Steps c Label.progress s s' ∧ Acked s' k := by
+  obtain ⟨s1, last', st, kp, ha, hle, hk⟩ := steps_to_fetch (c := c) w cl hh hns
+  by_cases hkl : k ≤ last'
+  · exact ⟨s1, st, hk k h1 hkl⟩
+  · obtain ⟨s2, st2, d⟩ := deliver_from_fetch hps k (k - last') s1 last' (st.wf w) ha (by omega)
+      (by rw [kp.1]; exact h2) (Nat.le_refl _)
     exact ⟨s2, st.trans st2, d⟩
-  · by_cases hk : k ≤ hi
-    · exact ⟨s1, st, (h.last, hi), by rw [hr]; exact List.mem_cons_self, h1, hk⟩
-    · obtain ⟨s2, st2, d⟩ := deliver_from_fetch hps k (k - hi) s1 hi (st.wf w) ha (by omega) (by rw [hn]; exact h2) (Nat.le_refl _)
-      exact ⟨s2, st.trans st2, d⟩
-
 
 theorem progress_recovery (l : Label) (h : l.progress = true) : l.recovery = true := by
   cases l <;> simp_all [Label.recovery]
@@ -295,26 +397,25 @@ theorem steps_to_running {c : Cfg} {s : State} (w : WF s) (hc : s.created = true
         exact ⟨s2, st'.trans st2, by rw [hn2, hn], p⟩
       · exact ⟨s1, st', hn, hrun⟩
 
-theorem delivered_of_le_cursor {c : Cfg} {s : State} {h : Handler} {k : Nat} (i : Inv c s)
-    (hh : s.handler = some h) (h1 : 1 ≤ k) (h2 : k ≤ h.last) : Delivered s k := by
+theorem acked_of_le_cursor {c : Cfg} {s : State} {h : Handler} {k : Nat} (i : Inv c s)
+    (hh : s.handler = some h) (h1 : 1 ≤ k) (h2 : k ≤ h.last) : Acked s k := by
   have := i.last_le h hh
-  have := i.ack_le
-  exact i.chain.covers h1 (by omega)
+  exact i.ackedPre k h1 (by omega)
 
 /-- **At least once.** In a `Good` configuration, from EVERY reachable state of a
     created pipeline and for every committed log `k` there is a finite sequence of
     failure-free steps (plus `sync` / manager start if the pipeline or the manager
-    is down) after which the exporter has received `k` since the last reset. As
-    this holds in every reachable state, no step can disable progress for good. -/
+    is down) after which the exporter has acknowledged `k` itself since the last
+    reset. As this holds in every reachable state, no step can disable progress for good. -/
 theorem at_least_once_good {c : Cfg} (g : Good c) (hps : 1 ≤ c.ps) {s : State} (r : Reach c s)
     (hc : s.created = true) {k : Nat} (h1 : 1 ≤ k) (h2 : k ≤ s.nLogs) :
-    ∃ s', Steps c Label.recovery s s' ∧ Delivered s' k := by
+    ∃ s', Steps c Label.recovery s s' ∧ Acked s' k := by
   obtain ⟨s1, st, hn, h, hh, hns⟩ := steps_to_running (c := c) (wf_reach r) hc
   have r1 := st.reach r
   by_cases hk : k ≤ h.last
-  · exact ⟨s1, st, delivered_of_le_cursor (inv_reach g r1) hh h1 hk⟩
+  · exact ⟨s1, st, acked_of_le_cursor (inv_reach g r1) hh h1 hk⟩
   · have hlt : h.last < k := by omega
-    obtain ⟨s2, st2, d⟩ := deliver_beyond_cursor hps (wf_reach r1) hh hns hlt (by rw [hn]; exact h2)
+    obtain ⟨s2, st2, d⟩ := deliver_beyond_cursor hps (wf_reach r1) (clean_reach r1) hh hns hlt (by rw [hn]; exact h2)
     exact ⟨s2, st.trans (st2.mono progress_recovery), d⟩
 
 end Ledger.Repl
